@@ -1,0 +1,24 @@
+//go:build verif
+
+// Verification hook for automatic HTTPS (build tag `verif` only; add-only, no
+// behaviour of the normal build depends on this file).
+
+package caddyhttp
+
+import "sort"
+
+// VerifAllCertDomains returns a sorted copy of the names that
+// automaticHTTPSPhase1 stored in the unexported App.allCertDomains for phase 2
+// (the names the HTTP app will hand to the TLS app's Manage). It returns nil
+// after phase 2 has consumed the set.
+func (app *App) VerifAllCertDomains() []string {
+	if app.allCertDomains == nil {
+		return nil
+	}
+	out := make([]string, 0, len(app.allCertDomains))
+	for d := range app.allCertDomains {
+		out = append(out, d)
+	}
+	sort.Strings(out)
+	return out
+}
